@@ -33,6 +33,20 @@ A cut at or before the last data byte must raise EOFError in every form; a cut i
 the complete input (also with bytes following it) returns the same value in every form - the library's construction shortcut, T(bytes)
 of EXACTLY the size of a lone char / char[N] member, included - and leaves a stream at the end of the encoding; no residue.  The same
 definitions also run through cuts_and_faults (model beside every cut, every read call faulted).
+
+Identical in every observable (round 8, harness/v9_c08.py): a cut input still parses where it ends behind the last data-carrying byte -
+inside the tail padding of an aligned union / structure, of the last element of an array of them, of an aggregate that is the last
+member of another.  The family generates such definitions - unions whose largest member does not fill the aligned size (uint32 + char[5]
+-> 8, uint64 + wchar[3], int24 alone, double + uint16[5], nested and anonymous aggregates), structures with tail padding, zero-length last
+members, controls without padding, a share of general random trees - alone, as (anonymous) last member, in arrays, inside unions, inside
+the last member, under {<, >} x {aligned, packed} x {interpreted, compiled}; every cut goes through T(x), T.read(x), T.reads(x),
+cs.read('T', x) with x = bytes, bytearray, memoryview, bytes subclass, BytesIO, BufferedReader, a bare read/seek/tell object, a real file
+(buffered and unbuffered), and through the type inside other constructs: T[2](x)[1], W(x).inner, P(x).p.dereference().  A cut at or before
+the last data byte must raise EOFError; a value returned from a cut behind it must be the value of the complete input in EVERY observable:
+repr, str, dumps(), bytes(), len(), hash(), bool(), _sizes, type(v).dumps(v), v.write(), dumpstruct(v), on the value and on every member
+below it; ==, !=, hash equality and dict lookup against the complete input's value at every aggregate level; the serialisation after every
+member was assigned its own value; the position of a stream argument.  Observables are compared where two independent parses of the
+complete input agree on them (NaN members make == and hash differ between any two parses).
 """
 from __future__ import annotations
 
@@ -145,7 +159,13 @@ def run(env) -> Result:
                 "mask, every cut and every faulted read call. Call forms: structures / unions with one member (char, char[N], wchar[N], byte arrays, "
                 "null-terminated arrays, numbers, nested aggregates; two- and three-member controls) and bare types x every cut of a valid input x "
                 "{T(x), T.read(x), T.reads(x), cs.read(name, x), T[1](x)[0], W(x).inner} x {bytes, bytearray, memoryview, bytes subclass, BytesIO, "
-                "BufferedReader}: EOFError up to the last data byte, the complete value from the end of the encoding on. distinct = "
+                "BufferedReader}: EOFError up to the last data byte, the complete value from the end of the encoding on. Identical in every "
+                "observable: aggregates with tail padding (unions whose largest member does not fill the aligned size, padded structures; alone, "
+                "last member, anonymous, in arrays, in unions, nested; controls; random trees) x every cut x {T(x), T.read, T.reads, cs.read} x "
+                "{bytes, bytearray, memoryview, bytes subclass, BytesIO, BufferedReader, read/seek/tell object, file, unbuffered file} and "
+                "T[2](x)[1], W(x).inner, P(x).p.dereference(): a value returned from a cut behind the last data byte equals the complete input's "
+                "value in repr, str, dumps, bytes, len, hash, bool, _sizes, write, dumpstruct on every level, in ==, != and dict lookup against "
+                "it, after re-assigning its members, and in the stream position. distinct = "
                 "(definition, config, input, cut or fault); non-trivial = cut strictly inside the encoded extent")
     eng = Engine(env, res, "C08")
     rnd = mkrng(env["seed"], "c08")
@@ -184,6 +204,9 @@ def run(env) -> Result:
     # call forms x few-member aggregates and bare types (harness/v8_c08.py)
     from .. import v8_c08
     v8_c08.run(env, eng, res, mkrng(env["seed"], "c08-call-forms"), cuts_and_faults)
+    # values returned from shortened inputs are identical to the complete input's value in every observable (harness/v9_c08.py)
+    from .. import v9_c08
+    v9_c08.run(env, eng, res, mkrng(env["seed"], "c08-observables"), cuts_and_faults)
     eng.flush()
     return res
 
